@@ -34,6 +34,11 @@ def gen_cases(rng, tier):
         cases.append(c01.gen_frontier_case(rng, slacks=[-3, -2, -1, -1, 0, 0, 1, 2, 21, 22]))
     for ln in (19809, 19810, 19811, 19812):
         cases.append({"sources": [{"arg": "edge.bin", "content": {"rand": ln, "len": ln}}], "verbose": False, "archive": "t.k7"})
+    # contents full of line ends, Ctrl-Z and byte order marks under every kind: content is never rewritten on its way to the tape
+    eol = "31302050520d0a3230200d0a0d0a1a"
+    cases.append({"sources": [{"arg": a, "content": {"pat": pz, "len": 200 + 17 * k}} for k, (a, pz) in enumerate([("list.bas,a", eol), ("prog.bas", eol), ("data.csv", eol), ("bin.bin", eol), ("noext", eol),
+                                                                                                             ("bom.bas,a", "efbbbf" + eol), ("LF.BAS,A", "0a0d0a0a"), ("cr.csv", "0d0d0a")])],
+                  "verbose": False, "archive": "t.k7"})
     return cases, {"random": n, "capacity frontier (-3..+22 bytes)": nf, "fixed": 4}
 
 
